@@ -88,6 +88,10 @@ func (p *Program) generateLemma(j *Job, x *Exec) {
 		x.ctx.assume(st, r.t)
 	}
 	x.obls = append(x.obls, &Obligation{Name: j.Name + "#pre-sat", Kind: "pre-sat", Job: j.Name, NFact: len(x.ctx.facts), PC: True, Goal: False, Note: "lemma hypotheses are satisfiable (expected: sat)"})
+	// `use lemma(args)`: instances of other (separately proved) lemmas are hypotheses
+	for _, r := range x.evalClauses(fr, st, c.clauses("use", 0), nil, "use") {
+		x.ctx.assume(st, r.t)
+	}
 	fr.results = &Val{}
 	for _, r := range x.evalClauses(fr, st, c.clauses("ensures", 0), nil, "ensures") {
 		x.oblige(st, "ensures", r.t, token.NoPos, r.cl.Src)
@@ -162,6 +166,10 @@ func (p *Program) generate(j *Job) {
 		}
 		// vacuity guard: the precondition must be satisfiable
 		x.obls = append(x.obls, &Obligation{Name: j.Name + "#pre-sat", Kind: "pre-sat", Job: j.Name, NFact: len(x.ctx.facts), PC: True, Goal: False, Note: "precondition is satisfiable (expected: sat)"})
+		// `use lemma(args)`: instances of separately proved lemmas are hypotheses of the body
+		for _, r := range x.evalClauses(fr, st, c.clauses("use", 0), nil, "use") {
+			x.assumeFact(st, r.t)
+		}
 		if !c.NoFrame {
 			fs := &frameSpec{alloc0: st.alloc, allowed: map[string][]*Term{}, any: map[string]bool{}}
 			ev := &evaluator{x: x, fr: fr, st: st, lets: map[string]*Val{}}
